@@ -181,6 +181,35 @@ def one_case(ctx, rng, spec, prep_exprs, prep_meta, full_exprs, full_meta):
     full_exprs.append('run_full %s %s %s %s' % (rho, paths, C.clist([c01.contrib_lit(x) for x in o['cs']]),
                                                 C.natlit(m)))
     full_meta.append(dict(name='all', trans=o['trans'], spec=spec, key=key, slack=cut_slack))
+    # (d) a source switched off and on again on the live model, the per-component breakdown asked for FIRST afterwards
+    #     (model_full_contrib drives the components itself): same settings, so the same components as before
+    if 'FlatMie' in spec['contribs']:
+        try:
+            with np.errstate(all='ignore'):
+                keep = model['flat_mix_ratio']
+                model['flat_mix_ratio'] = 0.0
+                t_off = np.array(model.model()[2])
+                model['flat_mix_ratio'] = keep
+                _, fdict2 = model.model_full_contrib()
+            ctx.count('source switched off and on, components first')
+            for c in model.contribution_list:
+                a, b = fdict[c.name], fdict2[c.name]
+                if len(a) != len(b) or any(not np.allclose(np.array(x[2]), np.array(y[2]), rtol=1e-12, atol=1e-300)
+                                           for x, y in zip(a, b)):
+                    ctx.violation('history:components:' + type(c).__name__,
+                                  '%s: components returned by model_full_contrib() after the haze was set to zero, '
+                                  'evaluated, and set back differ from those returned before (same settings)' % c.name,
+                                  replay=dict(rp, history=['model_full_contrib', 'flat_mix_ratio=0', 'model',
+                                                           'flat_mix_ratio restored', 'model_full_contrib']))
+            # zero strength: the source contributes nothing (product of the others)
+            others = np.ones_like(o['trans'])
+            for c in model.contribution_list:
+                if type(c).__name__ != 'FlatMieContribution':
+                    others = others * np.array(cdict[c.name][1])
+            if np.any(np.abs(others - t_off) > cut_slack):
+                ctx.violation('zero-strength', 'a haze of mixing ratio zero changes the transmittance', replay=rp)
+        except Exception as e:
+            ctx.violation('history-raises', 'switching the haze off and on raised %r' % (e,), replay=rp)
     # (b) insertion order
     orders = list(itertools.permutations(spec['contribs'])) if len(spec['contribs']) <= 3 else \
         [tuple(rng.sample(spec['contribs'], len(spec['contribs']))) for _ in range(3)]
